@@ -300,7 +300,7 @@ macro_rules! ext_mod {
                         let shown = show_search(&spec, &out);
                         if DIRECTED && !ctx.quiet && ctx.oracles.iter().any(|o| o == "c08") && !spec.dflt {
                             // metamorphic: transpose() on G == the same search without it on the edge-reversed graph
-                            let rev = reversed(st, !spec.tr);
+                            let rev = reversed(st, spec.tr);
                             let mut spec2 = spec.clone();
                             spec2.tr = !spec.tr;
                             let out2 = do_search(&rev, &spec2);
